@@ -57,6 +57,21 @@ func (f *Field) resolved() error {
 	return nil
 }
 
+// resolvedList checks a list element type, the generated code supports
+// lists of values, enums, structs and messages only.
+func (f *Field) resolvedList() error {
+	if f.Type.Kind != KindList {
+		return nil
+	}
+
+	elem := f.Type.Element
+	switch elem.Kind {
+	case KindAny, KindAnyMessage, KindList, KindService:
+		return fmt.Errorf("invalid field %q: list of %v not allowed", f.Name, elem.Kind)
+	}
+	return nil
+}
+
 // Fields
 
 type Fields struct {
@@ -118,6 +133,9 @@ func (f *Fields) resolve(file *File) error {
 func (f *Fields) compile() error {
 	for _, field := range f.List {
 		if err := field.resolved(); err != nil {
+			return err
+		}
+		if err := field.resolvedList(); err != nil {
 			return err
 		}
 	}
